@@ -84,9 +84,18 @@ def run(R, tier):
     nv_tab = {v["name"]: int(v["discr"]) for v in uc.adts[NV]["variants"]}
 
     def builder(variant, default):
+        """the builder as the library's own constructor and setter leave it (how `no default yet` is stored is private)"""
         val = EnumV(NV, variant, nv_tab[variant], {0: SymV("T", "value")} if variant == "Value" else {})
-        vals = {"value": val, "max": SymV("MAX", "max"), "min": SymV("MIN", "min"), "default": default}
-        return AggV(NB, {i: vals.get(n, TOP) for i, n in enumerate(nb_fields)})
+        engb = CB.engine("scpi_contrib", inline=inline_nb, max_depth=8)
+        rs = engb.run(uc.body(NB + "::new"), [val, SymV("MAX", "max"), SymV("MIN", "min")])
+        bld = rs[0].retval if len(rs) == 1 and rs[0].outcome == "return" else None
+        if bld is not None and isinstance(default, EnumV) and default.name == "Some":
+            rs = engb.run(uc.body(NB + "::default"), [bld, default.fields[0]])
+            bld = rs[0].retval if len(rs) == 1 and rs[0].outcome == "return" else None
+        if bld is None:
+            vals = {"value": val, "max": SymV("MAX", "max"), "min": SymV("MIN", "min"), "default": default}
+            return AggV(NB, {i: vals.get(n, TOP) for i, n in enumerate(nb_fields)})
+        return bld
 
     def outcomes(variant, default):
         res = eng.run(fb, [builder(variant, default)])
@@ -228,7 +237,9 @@ def run(R, tier):
                 v = f.get(i)
                 if n == setter:
                     if setter == "default":
-                        ok = ok and isinstance(v, EnumV) and v.name == "Some" and isinstance(v.fields.get(0), SymV) and v.fields[0].id == "NEW"
+                        # (stored in whatever wrapper the private field uses - Some(v), Ok(v) ...; that DEFault then resolves
+                        # to it is decided by the routes of R17.5)
+                        ok = ok and isinstance(v, EnumV) and v.name in ("Some", "Ok") and isinstance(v.fields.get(0), SymV) and v.fields[0].id == "NEW"
                     else:
                         ok = ok and isinstance(v, SymV) and v.id == "NEW"
                 else:
